@@ -16,7 +16,8 @@ THEOREMS = ["Typedpy.C15." + t for t in (
     "name_keyed_registry_breaks_frame", "inplace_required_breaks_frame", "registry_fixed_example",
     "required_fixed_example", "C15_statement_fails_with_findings", "counterexamples_are_excluded",
     "frame_example", "camel_key_dropped_breaks_frame", "refs_example", "nested_frame_example",
-    "nested_create_example", "mro_serializer_breaks_frame", "C15_statement_fails_today")]
+    "nested_create_example", "mro_serializer_breaks_frame", "C15_statement_fails_today", "construct_result_frame",
+    "construct_result_unchanged_by_use", "construct_result_example")]
 RULE = ("histories of 2-5 (thorough: 2-7) class definitions — roots, subclasses, Omit/Pick/Partial/AllFieldsRequired/"
         "Extend-derived classes, FastSerializable classes, same-named classes, snake_case field names of which half "
         "come from a small pool so that unrelated classes share field names, renamed serialization keys, fields that "
